@@ -50,6 +50,13 @@ class Ctx:
         self.assumptions: List[str] = []
         self.extra: Dict[str, object] = {}
 
+    def has_new_violation(self) -> bool:
+        """a finding that the known-findings file does not list (what finish() will print as a VIOLATION)"""
+        known = [k for k in load_known() if (k.get("property") == self.prop or self.prop in k.get("also", []))
+                 and k.get("status", "known") == "known"]
+        return any(not any(k.get("rule") == f.rule and k.get("where") == f.where and k.get("construct") == f.construct for k in known)
+                   for f in self.findings)
+
     # -- bookkeeping -----------------------------------------------------------
     def _stat(self, rule):
         return self.rule_stats.setdefault(rule, {"instances": 0, "held": 0, "violated": 0})
